@@ -15,9 +15,10 @@ import sys
 from spec_classes import classproperty, spec_class, spec_property
 
 OPS = ["read", "assign", "delete", "bump"]
+NONE_OPS = ["read", "assign_none", "delete"]
 
 
-def make_plain(o, c, has_set, has_del):
+def make_plain(o, c, has_set, has_del, none_getter=False):
     log = []
 
     class P:
@@ -26,7 +27,7 @@ def make_plain(o, c, has_set, has_del):
 
     def fget(self):
         log.append("get")
-        return self.x * 10
+        return None if none_getter else self.x * 10
     p = spec_property(fget, overridable=o, cache=c)
     if has_set:
         p = p.setter(lambda self, v: log.append(("set", v)))
@@ -59,7 +60,7 @@ def make_spec(o, c, has_set, has_del, bad=False):
     return S, log
 
 
-def model_step(st, op, o, c, has_set, has_del, spec, bad):
+def model_step(st, op, o, c, has_set, has_del, spec, bad, none_getter=False):
     """st = dict(slot=<absent or value>, x=int); returns (result, exc class or None, expected log delta)"""
     ABS = "<absent>"
     if op == "bump":
@@ -68,7 +69,7 @@ def model_step(st, op, o, c, has_set, has_del, spec, bad):
     if op == "read":
         if st["slot"] != ABS and (o or c):
             return st["slot"], None, []
-        g = "oops" if bad else st["x"] * 10
+        g = "oops" if bad else (None if none_getter else st["x"] * 10)
         if spec:
             g = g + 1 if isinstance(g, int) else g
             if not isinstance(g, int):
@@ -76,8 +77,8 @@ def model_step(st, op, o, c, has_set, has_del, spec, bad):
         if c:
             st["slot"] = g
         return g, None, ["get"]
-    if op == "assign":
-        v = 778 if spec else 777      # the spec-class route prepares (+1) the assigned value before the descriptor sees it
+    if op in ("assign", "assign_none"):
+        v = None if op == "assign_none" else (778 if spec else 777)      # the spec-class route prepares (+1) the assigned value
         if has_set:
             return None, None, [("set", v)]
         if o:
@@ -93,14 +94,14 @@ def model_step(st, op, o, c, has_set, has_del, spec, bad):
         return None, AttributeError, []
 
 
-def run_seq(kind, o, c, has_set, has_del, seq, bad=False):
+def run_seq(kind, o, c, has_set, has_del, seq, bad=False, none_getter=False):
     spec = kind == "spec"
-    cls, log = (make_spec(o, c, has_set, has_del, bad) if spec else make_plain(o, c, has_set, has_del))
+    cls, log = (make_spec(o, c, has_set, has_del, bad) if spec else make_plain(o, c, has_set, has_del, none_getter))
     obj = cls()
     st = {"slot": "<absent>", "x": 1}
     for i, op in enumerate(seq):
         del log[:]
-        exp, exp_exc, exp_log = model_step(st, op, o, c, has_set, has_del, spec, bad)
+        exp, exp_exc, exp_log = model_step(st, op, o, c, has_set, has_del, spec, bad, none_getter)
         before = dict(obj.__dict__)
         got, got_exc = None, None
         try:
@@ -112,6 +113,8 @@ def run_seq(kind, o, c, has_set, has_del, seq, bad=False):
                     obj.p = 777
                 else:
                     obj.p = 777
+            elif op == "assign_none":
+                obj.p = None
             elif op == "delete":
                 if spec:
                     type(obj).__dict__["p"].__delete__(obj) if False else delattr(obj, "p")
@@ -256,6 +259,15 @@ def search(n, only=None):
                     bad = run_seq(kind, o, c, hs, hd, seq)
                     if bad:
                         return cases, bad, "run_seq(%r, %r, %r, %r, %r, %r)" % (kind, o, c, hs, hd, seq)
+    # stored values that are None (a None override, a cached None): stored is stored, whatever the value
+    for o, c, hs, hd in itertools.product([False, True], repeat=4):
+        for ng in (False, True):
+            for L in range(1, min(n, 3) + 1):
+                for seq in itertools.product(NONE_OPS, repeat=L):
+                    cases += 1
+                    bad = run_seq("plain", o, c, hs, hd, seq, none_getter=ng)
+                    if bad:
+                        return cases, bad, "run_seq('plain', %r, %r, %r, %r, %r, none_getter=%r)" % (o, c, hs, hd, seq, ng)
     for o, c in itertools.product([False, True], repeat=2):
         cases += 1
         bad = run_seq("spec", o, c, False, False, ("read",), bad=True)
